@@ -389,6 +389,7 @@ pub fn corpus() -> Vec<Scenario> {
         sc("abandon-while-unreachable", vec![Register(0), Register(1), Down(0, true), Notify(0), Abandon(0), Notify(1), Register(0), Notify(2), Retry(0)]),
         sc("recovery-between-two-attempts", vec![Register(0), Down(0, true), Notify(0), Notify(1), Notify(2), Down(0, false), AddOnce(0, NonJson), Retry(0), Notify(3)]),
         sc("one-bad-reply-on-notification", vec![Register(0), Register(1), AddOnce(0, WrongShape), Notify(0), AddOnce(1, SubErr), Notify(1), Notify(2)]),
+        sc("abandon-and-return-with-idle-retrier", vec![Register(0), Down(0, true), Notify(0), Abandon(0), Down(0, false), Register(0), Notify(1), Down(0, true), Notify(2), Down(0, false), Notify(3), Retry(0)]),
         sc("kill-with-pending", vec![Register(0), Register(1), Down(0, true), Notify(0), Notify(1), Restart, Down(0, false), Restart, Notify(2)]),
         sc("register-replies", vec![PEv::Reg(0, RegMode::BadSig), Register(0), PEv::Reg(0, RegMode::NonJson), Register(0), PEv::Reg(0, RegMode::ApiError), Register(0), PEv::Reg(0, RegMode::Accept), Register(0), PEv::Reg(0, RegMode::Same), Register(0), PEv::Reg(0, RegMode::SameExpiry), Register(0), Down(0, true), Register(0), Notify(0)]),
         Scenario { name: "auto-retry-delivers".into(), towers: 1, opts: (2, 3, 1), events: vec![Register(0), Down(0, true), Notify(0), Notify(1), Down(0, false), AwaitDelivered(0, 14)] },
